@@ -250,6 +250,21 @@ OwnersRevertFacts.vos OwnersRevertFacts.vok OwnersRevertFacts.required_vos: Owne
 OwnersRevertProgress.vo OwnersRevertProgress.glob OwnersRevertProgress.v.beautified OwnersRevertProgress.required_vo: OwnersRevertProgress.v Owners.vo OwnersFacts.vo OwnersRevert.vo OwnersRevertFacts.vo
 OwnersRevertProgress.vio: OwnersRevertProgress.v Owners.vio OwnersFacts.vio OwnersRevert.vio OwnersRevertFacts.vio
 OwnersRevertProgress.vos OwnersRevertProgress.vok OwnersRevertProgress.required_vos: OwnersRevertProgress.v Owners.vos OwnersFacts.vos OwnersRevert.vos OwnersRevertFacts.vos
+OwnersProgress.vo OwnersProgress.glob OwnersProgress.v.beautified OwnersProgress.required_vo: OwnersProgress.v Owners.vo OwnersRevert.vo
+OwnersProgress.vio: OwnersProgress.v Owners.vio OwnersRevert.vio
+OwnersProgress.vos OwnersProgress.vok OwnersProgress.required_vos: OwnersProgress.v Owners.vos OwnersRevert.vos
+OwnersProgressRules.vo OwnersProgressRules.glob OwnersProgressRules.v.beautified OwnersProgressRules.required_vo: OwnersProgressRules.v Owners.vo OwnersFacts.vo OwnersProgress.vo
+OwnersProgressRules.vio: OwnersProgressRules.v Owners.vio OwnersFacts.vio OwnersProgress.vio
+OwnersProgressRules.vos OwnersProgressRules.vok OwnersProgressRules.required_vos: OwnersProgressRules.v Owners.vos OwnersFacts.vos OwnersProgress.vos
+OwnersProgressLoops.vo OwnersProgressLoops.glob OwnersProgressLoops.v.beautified OwnersProgressLoops.required_vo: OwnersProgressLoops.v Owners.vo OwnersFacts.vo OwnersProgress.vo OwnersProgressRules.vo
+OwnersProgressLoops.vio: OwnersProgressLoops.v Owners.vio OwnersFacts.vio OwnersProgress.vio OwnersProgressRules.vio
+OwnersProgressLoops.vos OwnersProgressLoops.vok OwnersProgressLoops.required_vos: OwnersProgressLoops.v Owners.vos OwnersFacts.vos OwnersProgress.vos OwnersProgressRules.vos
+OwnersProgressFacts.vo OwnersProgressFacts.glob OwnersProgressFacts.v.beautified OwnersProgressFacts.required_vo: OwnersProgressFacts.v Owners.vo OwnersFacts.vo OwnersProgress.vo OwnersProgressRules.vo OwnersProgressLoops.vo
+OwnersProgressFacts.vio: OwnersProgressFacts.v Owners.vio OwnersFacts.vio OwnersProgress.vio OwnersProgressRules.vio OwnersProgressLoops.vio
+OwnersProgressFacts.vos OwnersProgressFacts.vok OwnersProgressFacts.required_vos: OwnersProgressFacts.v Owners.vos OwnersFacts.vos OwnersProgress.vos OwnersProgressRules.vos OwnersProgressLoops.vos
+OwnersRevertProgressFacts.vo OwnersRevertProgressFacts.glob OwnersRevertProgressFacts.v.beautified OwnersRevertProgressFacts.required_vo: OwnersRevertProgressFacts.v Owners.vo OwnersFacts.vo OwnersRevert.vo OwnersRevertFacts.vo OwnersProgress.vo OwnersProgressRules.vo OwnersProgressLoops.vo OwnersProgressFacts.vo
+OwnersRevertProgressFacts.vio: OwnersRevertProgressFacts.v Owners.vio OwnersFacts.vio OwnersRevert.vio OwnersRevertFacts.vio OwnersProgress.vio OwnersProgressRules.vio OwnersProgressLoops.vio OwnersProgressFacts.vio
+OwnersRevertProgressFacts.vos OwnersRevertProgressFacts.vok OwnersRevertProgressFacts.required_vos: OwnersRevertProgressFacts.v Owners.vos OwnersFacts.vos OwnersRevert.vos OwnersRevertFacts.vos OwnersProgress.vos OwnersProgressRules.vos OwnersProgressLoops.vos OwnersProgressFacts.vos
 OwnersRevertScenarios.vo OwnersRevertScenarios.glob OwnersRevertScenarios.v.beautified OwnersRevertScenarios.required_vo: OwnersRevertScenarios.v Owners.vo OwnersFacts.vo OwnersScenarios.vo OwnersRevert.vo OwnersRevertFacts.vo
 OwnersRevertScenarios.vio: OwnersRevertScenarios.v Owners.vio OwnersFacts.vio OwnersScenarios.vio OwnersRevert.vio OwnersRevertFacts.vio
 OwnersRevertScenarios.vos OwnersRevertScenarios.vok OwnersRevertScenarios.required_vos: OwnersRevertScenarios.v Owners.vos OwnersFacts.vos OwnersScenarios.vos OwnersRevert.vos OwnersRevertFacts.vos
